@@ -10,6 +10,9 @@ PROGRAM = r"""
 :- use_module(library(between)).
 :- use_module(library(iso_ext)).
 :- use_module(library(terms)).
+:- use_module(library(charsio)).
+:- use_module(library(pairs)).
+wrapc(X, c(X)).
 :- set_prolog_flag(double_quotes, chars).
 cells(Xs, L) :- append(Xs, [], L).                      % the same list, rebuilt from list cells
 deep_cells(T, T) :- var(T), !.
@@ -46,7 +49,25 @@ case(I, S) :-
     chk(I-copy, (copy_term(f(S, S), R7)), R7, (copy_term(f(L, L), R8)), R8),
     chk(I-univ, (T1 = g(S), T1 =.. R9), R9, (T2 = g(L), T2 =.. R10), R10),
     chk(I-findall, findall(X, member(X, S), R11), R11, findall(X, member(X, L), R12), R12),
-    chk(I-msort, sort(0, @=<, S, R13), R13, sort(0, @=<, L, R14), R14),
+    chk(I-sort, sort(S, R13), R13, sort(L, R14), R14),
+    chk(I-nth0, findall(K-X, nth0(K, S, X), R27), R27, findall(K-X, nth0(K, L, X), R28), R28),
+    chk(I-last, (append(_, [R29], S) -> true ; R29 = none), R29, (append(_, [R30], L) -> true ; R30 = none), R30),
+    chk(I-arg, (arg(1, S, A1x), arg(2, S, A2x), R31 = A1x-A2x), R31, (arg(1, L, B1x), arg(2, L, B2x), R32 = B1x-B2x), R32),
+    chk(I-functor, (functor(S, N1, Ar1), R33 = N1/Ar1), R33, (functor(L, N2, Ar2), R34 = N2/Ar2), R34),
+    chk(I-write, phrase(format_("~w|~q|~a", [S, S, x]), R35), R35, phrase(format_("~w|~q|~a", [L, L, x]), R36), R36),
+    chk(I-canonical, write_term_to_chars(S, [quoted(true), ignore_ops(true)], R37), R37, write_term_to_chars(L, [quoted(true), ignore_ops(true)], R38), R38),
+    chk(I-wdq, write_term_to_chars(f(S), [quoted(true), double_quotes(true)], R39), R39, write_term_to_chars(f(L), [quoted(true), double_quotes(true)], R40), R40),
+    chk(I-number, number_chars(R41, S), R41, number_chars(R42, L), R42),
+    chk(I-order, (S @< [z] -> R43 = yes ; R43 = no), R43, (L @< [z] -> R44 = yes ; R44 = no), R44),
+    chk(I-subsumes, (subsumes_term(S, L) -> R45 = yes ; R45 = no), R45, true, yes),
+    chk(I-ground, (ground(S) -> R47 = yes ; R47 = no), R47, true, yes),
+    chk(I-listq, (catch(length(S, _), _, fail) -> R49 = yes ; R49 = no), R49, true, yes),
+    chk(I-keysort, (pairs_keys_values(Ps, S, S), keysort(Ps, R51)), R51, (pairs_keys_values(Qs, L, L), keysort(Qs, R52)), R52),
+    chk(I-maplist, maplist(wrapc, S, R53), R53, maplist(wrapc, L, R54), R54),
+    chk(I-setof, (setof(X, member(X, S), R55) -> true ; R55 = none), R55, (setof(X, member(X, L), R56) -> true ; R56 = none), R56),
+    chk(I-codes, (atom_chars(A3, S), atom_codes(A3, R57)), R57, (atom_chars(A4, L), atom_codes(A4, R58)), R58),
+    chk(I-concat, (atom_chars(A5, S), atom_concat(A5, A5, A6), atom_chars(A6, R59)), R59, append(L, L, R60), R60),
+    chk(I-appself, append(S, S, R61), R61, append(L, L, R62), R62),
     chk(I-assert, (retractall(st(_)), assertz(st(S)), st(R15)), R15, (retractall(st(_)), assertz(st(L)), st(R16)), R16),
     chk(I-atom, (atom_chars(A1, S), atom_chars(A1, R17)), R17, (atom_chars(A2, L), atom_chars(A2, R18)), R18),
     chk(I-rev, reverse(S, R19), R19, reverse(L, R20), R20),
